@@ -220,7 +220,7 @@ func httpParts(c *Case) (method, path string, hdr http.Header, body []byte) {
 		body = append(body, c.Tail...)
 	}
 	if c.Gzip {
-		body = wire.Gzip(body)
+		body = c.compress(body)
 		hdr.Set("Content-Encoding", "gzip")
 	}
 	if len(body) == 0 {
@@ -234,7 +234,7 @@ func grpcBody(c *Case) []byte {
 	var b []byte
 	for i, m := range c.Reqs {
 		if c.flagged(i) {
-			b = append(b, wire.Frame(wire.Gzip(m), true)...)
+			b = append(b, wire.Frame(c.compress(m), true)...)
 		} else {
 			b = append(b, wire.Frame(m, false)...)
 		}
